@@ -102,7 +102,10 @@ class Operator(Token):
             if pred > stack[-1].pred:
                 break
             builder.append(stack.pop())
-        stack.append(self)
+        if self.name == '%':  # Postfix: complete as soon as it is read.
+            builder.append(self)
+        else:
+            stack.append(self)
 
     def compile(self):
         from ..functions.operators import OPERATORS
